@@ -231,6 +231,7 @@ def _presentation(ctx):
                     ctx.violation(f"non-modulus-column-lost:all-zero={bool(not numpy.any(col))}",
                                   f"{system}: non-modulus column {nm!r} (values {col[:3]}) lost or changed by fill", case_id, data)
             variants = {
+                "index:" + FT.INDEX_KINDS[1 + n % 4]: FT.reindex(FT.make_frame(field, S, extra=extra), FT.INDEX_KINDS[1 + n % 4], rng),
                 "permuted": FT.make_frame(field, S, rng, extra=extra, shuffle=True),
                 "uppercase": FT.make_frame(field, S, extra=extra, upper=True),
                 "int-dtype": FT.make_frame(field, S, extra=extra, as_int=True),
